@@ -137,9 +137,19 @@ def gen_frame(rng, k, step):
     skip_days = [i for i in range(nd) if rng.random() < 0.08] if meter != "subdaily" else []
     how = rng.choice(["df", "df", "series", "series-offset"])
     klass = rng.choice(["baseline", "baseline", "reporting"])
+    cls = "daily"
+    if rng.random() < 0.22:
+        # a reporting object built from weather alone (no meter value at all): from_series(None, feed, tzinfo=site) with
+        # the feed delivered in UTC / at another offset, or a frame without usage; daily and billing class.  The meter
+        # day is then the local calendar day, wherever on the clock the feed starts.
+        meter, mh, skip_days, klass = "none", 0, [], "reporting"
+        how = rng.choice(["series-none", "series-none", "df-nocol", "df-nan"])
+        cls = rng.choice(["daily", "billing"])
+        if k0 == 0 and rng.random() < 0.8:
+            return gen_frame(rng, k, step)          # mostly feeds that do not start at local midnight
     return {"kind": "frame", "zone": z, "step": step, "t0": t0, "temps": temps, "meter": meter, "meter_hour": mh,
             "skip_days": skip_days, "how": how, "klass": klass, "feed_zone": rng.choice(FIXED), "patterns": pats,
-            "on_dst": on_dst, "bounds": b, "elec": rng.random() < 0.5,
+            "on_dst": on_dst, "bounds": b, "elec": rng.random() < 0.5, "cls": cls,
             "zero_usage": sorted(rng.sample(range(n), min(n, rng.choice([0, 0, 1, 3, 8]))))}
 
 
@@ -192,6 +202,14 @@ def build_inputs(cs):
             obs.iloc[pos[t]] = float(v)
         return pd.DataFrame({"observed": obs, "temperature": temp})
     b = cs["bounds"]
+    if cs["meter"] == "none":
+        if cs["how"] == "series-none":
+            feed = temp.copy()
+            feed.index = feed.index.tz_convert(cs["feed_zone"])      # delivered in UTC / at a fixed offset
+            return ("none", feed)
+        if cs["how"] == "df-nocol":
+            return pd.DataFrame({"temperature": temp})
+        return pd.DataFrame({"observed": np.nan, "temperature": temp})
     if cs["meter"] == "subdaily":
         obs = pd.Series(1.0 + (np.arange(len(ts)) % 7), index=idx, name="observed")
         for i in cs.get("zero_usage", []):
@@ -220,9 +238,13 @@ def build_inputs(cs):
 def run_class(cs):
     """returns dict: err | {frame_freq, frame (stamp, temp), midx, temperature, not_null, null}"""
     from opendsm.eemeter.models.daily.data import DailyBaselineData, DailyReportingData
-    from opendsm.eemeter.models.billing.data import BillingBaselineData
-    base = BillingBaselineData if cs["kind"] == "billing" else (
-        DailyBaselineData if cs["klass"] == "baseline" else DailyReportingData)
+    from opendsm.eemeter.models.billing.data import BillingBaselineData, BillingReportingData
+    if cs["kind"] == "billing":
+        base = BillingBaselineData
+    elif cs.get("cls") == "billing":
+        base = BillingReportingData
+    else:
+        base = DailyBaselineData if cs["klass"] == "baseline" else DailyReportingData
 
     class Capture(base):
         df_in = None
@@ -238,7 +260,10 @@ def run_class(cs):
     elec = bool(cs.get("elec", False))
     inp = build_inputs(cs)          # outside the try: a mistake of the harness must crash, not look like a class error
     try:
-        if isinstance(inp, tuple):
+        if isinstance(inp, tuple) and isinstance(inp[0], str):
+            import zoneinfo
+            d = Capture.from_series(None, inp[1], is_electricity_data=elec, tzinfo=zoneinfo.ZoneInfo(cs["zone"]))
+        elif isinstance(inp, tuple):
             d = Capture.from_series(inp[0], inp[1], is_electricity_data=elec)
         else:
             d = Capture(inp, is_electricity_data=elec)
@@ -304,6 +329,22 @@ def day_stats(frame, lo, hi):
     return len(rows), pres
 
 
+def oracle_calendar_days(cs, obs):
+    """an object without any meter value: the meter day is the local calendar day - data.df has one row per local day of
+    the feed, labelled with its local midnight, wherever on the clock the feed starts"""
+    z = cs["zone"]
+    frame = obs["frame"]
+    want = tzdays.boundaries(frame[0][0], frame[-1][0], z)[:-1]
+    if list(obs["midx"]) != list(want):
+        bad = [m for m in obs["midx"] if tzdays.local_minute_of_day(m, z) != 0]
+        return [({"path": "calendar-days", "deviation": "rows are not the local calendar days of the feed"},
+                 "no meter value: data.df must carry one row per local calendar day (local midnights); got %d rows, %d of "
+                 "them not at local midnight (first at %02d:%02d local), expected %d local days" % (
+                     len(obs["midx"]), len(bad), (tzdays.local_minute_of_day(bad[0], z) // 60) if bad else 0,
+                     (tzdays.local_minute_of_day(bad[0], z) % 60) if bad else 0, len(want)))]
+    return []
+
+
 def oracle_hourly(cs, obs, billing):
     """every meter day: temperature = mean of the non-missing readings that fall in it, missing when half or fewer of
     its readings are present; the counts are the numbers of present / absent readings of the day (a day without a
@@ -318,8 +359,11 @@ def oracle_hourly(cs, obs, billing):
         totals.append(n)
     srt = sorted(t for t in totals if t > 0)
     med = (srt[len(srt) // 2] if len(srt) % 2 else F(srt[len(srt) // 2 - 1] + srt[len(srt) // 2], 2)) if srt else 0
+    meterless = cs.get("meter") == "none"
     for j, (lo, hi) in enumerate(days):
         n, pres = day_stats(frame, lo, hi)
+        if meterless and (lo < frame[0][0] or hi > frame[-1][0] + cs["step"]):
+            continue        # a local day the feed covers only partly (its first / last day): not judged
         exp = (sum(pres, F(0)) / len(pres)) if (n > 0 and 2 * len(pres) > n) else None
         got = obs["temperature"][j]
         last = j == len(days) - 1
@@ -452,7 +496,7 @@ def coq_rows(obs):
 def process_case(run, cs, flags):
     z = cs["zone"]
     key = vlib.sha(cs)
-    billing = cs["kind"] == "billing"
+    billing = cs["kind"] == "billing" or cs.get("cls") == "billing"
     elec = bool(cs.get("elec", False))
     obs = run_class(cs)
     run.dist("fuel", "electricity" if elec else "gas")
@@ -495,6 +539,9 @@ def process_case(run, cs, flags):
     run.dist("meter", cs.get("meter", "billing") + ("@%d" % cs["meter_hour"] if cs.get("meter") == "dailyH" else ""))
     run.dist("how", cs.get("how", "df"))
     frame = obs["frame"]
+    if cs.get("meter") == "none":
+        for sig, msg in oracle_calendar_days(cs, obs):
+            run.violation(sig, "C09 " + msg, case=cs, observation=short_obs(obs), generator=gen)
     if path == "hourly":
         fails = oracle_hourly(cs, obs, billing)
         for sig, msg in fails:
@@ -508,7 +555,7 @@ def process_case(run, cs, flags):
                     "patterns": cs["patterns"], "days": len(obs["midx"]),
                     "first_days": [None if v is None else float(v) for v in obs["temperature"][:4]]})
     else:
-        if cs["kind"] == "billing" or cs.get("meter") == "dailyH":
+        if billing or cs.get("meter") == "dailyH":
             return
         fails = oracle_subhourly(cs, obs, scale=flags["scale"])
         for sig, msg in fails:
@@ -596,6 +643,22 @@ def witness_zero_fahrenheit(how):
             "bounds": b, "elec": True, "zero_usage": []}
 
 
+def witness_weather_only(cls, how):
+    """America/New_York reporting object from weather alone: hourly feed delivered in UTC from 2021-06-01 00:00Z (20:00
+    local of 31 May) for 6 days, 13 readings of 3 June (local) missing"""
+    z = "America/New_York"
+    t0 = tzdays.date_to_minute_utc(2021, 6, 1)
+    n = 6 * 24
+    temps = [4 * (40 + (i * 7) % 31) for i in range(n)]
+    lo = (tzdays.day_start(dt.date(2021, 6, 3), z) - t0) // 60
+    for i in range(lo + 3, lo + 16):
+        temps[i] = None
+    b = tzdays.boundaries(t0, t0 + 60 * (n - 1), z)
+    return {"kind": "frame", "zone": z, "step": 60, "t0": t0, "temps": temps, "meter": "none", "meter_hour": 0,
+            "skip_days": [], "how": how, "klass": "reporting", "feed_zone": "UTC", "patterns": ["half"], "on_dst": False,
+            "bounds": b, "elec": False, "zero_usage": [], "cls": cls}
+
+
 def probe():
     """scale: is the sub-hourly mean divided by its coverage (code as it is) or not (repaired)?
     exact: are the sub-hourly counts per-day counts (repaired) or the flag of the day-start reading (code as it is)?"""
@@ -641,7 +704,9 @@ def main():
         "DST change (75 %) in 13 zones (incl. :30/:45 offsets), starting at local midnight or at another slot, NaN patterns: "
         "whole day, exactly half of the day's readings +-1 (23/24/25-hour days), a quarter, runs across midnight, random 10-70 %, "
         "leading / trailing; meter column sub-daily, daily at local midnight, or daily at another hour (06:00 / 18:00 / 01:00: "
-        "the meter's own day) with missing meter days; Daily baseline / reporting classes through the frame constructor and "
+        "the meter's own day) with missing meter days, or no meter value at all (reporting objects from weather alone: "
+        "from_series(None, feed in UTC / at a fixed offset, tzinfo=site), frames without usage; daily and billing class; feeds "
+        "that do not start at local midnight); Daily baseline / reporting classes through the frame constructor and "
         "from_series with the feed in the meter zone or at a fixed UTC offset (-12 .. +14, +5:30, +5:45); billing class on an "
         "hourly frame of 2-4 periods. distinct = (path, case hash); non-trivial = the class returned a frame")
     run.assumptions += [
@@ -680,7 +745,9 @@ def main():
         if os.path.exists(corpus):
             cases += json.load(open(corpus))
         cases += [witness_case(), witness_last_day_dst(), witness_billing_short_day(),
-                  witness_zero_fahrenheit("df"), witness_zero_fahrenheit("series-offset")]
+                  witness_zero_fahrenheit("df"), witness_zero_fahrenheit("series-offset"),
+                  witness_weather_only("billing", "series-none"), witness_weather_only("billing", "df-nocol"),
+                  witness_weather_only("daily", "series-none")]
         for k in range(nn(N_HOURLY)):
             cases.append(gen_frame(run.rng, k, 60))
         for k in range(nn(N_SUB)):
